@@ -311,6 +311,27 @@ Theorem ping_answered :
 Proof. exact ping_answered_l. Qed.
 Print Assumptions ping_answered.
 
+(* ... and so does the far end of a linked end-to-end circuit, which is the ORIGINATOR of its own circuit and has
+   no exit socket for it: the pong goes out under the same id and identifier, inside the end-to-end layer and all
+   hop layers of that circuit (ping is one instance of the cell message m0 :: rest of forward_transport /
+   backward_transport / e2e_layer). *)
+Theorem ping_answered_on_e2e_circuit :
+  forall (key nonce : Type) (enc : key -> dir -> nonce -> bytes -> bytes)
+         (nd : node key) (src : addr) (cid : Z) (ci : circuit key) (ks : list key) (hk : key) (h0 : hop key)
+         (htl : list (hop key)) (ident : Z) (early : bool) (rnd : Z -> bytes) (ns : nat -> nonce),
+  length (n_prefix nd) = 22%nat -> cid_ok cid -> 0 <= ident < 65536 ->
+  existsb (Z.eqb 6) (n_handlers nd) = true ->
+  assoc cid (n_circuits nd) = Some ci -> c_hs ci = Some hk -> c_hops ci = h0 :: htl ->
+  map h_keys (c_hops ci) = map Some ks ->
+  exists nd',
+  community_on_cell_packet enc nd src (cell_to_bin (n_prefix nd) (mkCell cid (6 :: be_encode 2 ident) false early)) rnd ns
+  = Ok (nd', [Send src (cell_to_bin (n_prefix nd)
+                     (mkCell cid (enc_layers enc FORWARD ks (drawn (shift ns) (length ks))
+                                    (enc hk (hs_out_dir (c_ctype ci)) (ns O) (7 :: be_encode 2 ident))) false
+                             (c_early ci <? n_max_early nd)))]).
+Proof. exact ping_answered_e2e_ex_l. Qed.
+Print Assumptions ping_answered_on_e2e_circuit.
+
 Theorem pong_received :
   forall (key nonce : Type) (enc : key -> dir -> nonce -> bytes -> bytes)
          (nd : node key) (src : addr) (cid ident : Z) (early : bool) (rnd : Z -> bytes) (ns : nat -> nonce),
